@@ -41,6 +41,17 @@ VALUES = [
 ]
 
 
+def _deep(n):
+    v = ['leaf']
+    for i in range(n):
+        v = [v, i]
+    return v
+
+
+# nesting deep enough that broken lines are indented far beyond any page width (every renderer must write the same indentation)
+VALUES.append(_deep(24))
+
+
 def ex_sx(e):
     out = []
     for k in ORDER:
